@@ -37,6 +37,8 @@ def _pure(e, depth=0):
         return _pure(e.test, depth + 1) and _pure(e.body, depth + 1) and _pure(e.orelse, depth + 1)
     if isinstance(e, ast.Tuple):      # lists are mutable objects with an identity: never substituted
         return bool(e.elts) and all(_pure(x, depth + 1) for x in e.elts)
+    if isinstance(e, (ast.List, ast.Dict)) and not (e.elts if isinstance(e, ast.List) else e.keys):
+        return True      # an empty literal used as a default argument
     if isinstance(e, ast.Lambda):
         return True
     if isinstance(e, ast.Call):
@@ -258,7 +260,7 @@ def normalize_function(fn):
     cands = {}
     for d, st in rd.defs.items():
         x = st.targets[0].id
-        if _pure(st.value) and x not in _free(st.value):
+        if _pure(st.value) and x not in _free(st.value) and not isinstance(st.value, (ast.List, ast.Dict, ast.Set)):
             cands[d] = st
     if not cands:
         return 0
